@@ -178,6 +178,8 @@ def scan(index: Index) -> Scan:
     if cached is not None:
         return cached
     sc = Scan()
+    from .entries import register_lazy_caches
+    register_lazy_caches(index)
     for cls in index.shape_classes():
         members = dict(cls.public_members())
         for name, m in sorted(members.items()):
